@@ -110,8 +110,25 @@ func removalPred(table string, key ssa.Value) (func(ssa.Instruction) bool, func(
 		return false
 	}
 	isRemoval := func(c ssa.CallInstruction) bool { return isRemovalK(c, key) }
-	var inClosure func(fn *ssa.Function, depth int) bool
-	inClosure = func(fn *ssa.Function, depth int) bool {
+	// argsOf: what a helper's parameters stand for at this call (so that `helper(key)` → `table.Delete(k)` is seen as a removal of key)
+	argsOf := func(c ssa.CallInstruction, sf *ssa.Function, outer map[ssa.Value]ssa.Value) map[ssa.Value]ssa.Value {
+		m := map[ssa.Value]ssa.Value{}
+		if c.Common().IsInvoke() {
+			return m
+		}
+		for i, p := range sf.Params {
+			if i < len(c.Common().Args) {
+				a := core.Resolve(c.Common().Args[i])
+				if o, ok := outer[a]; ok {
+					a = o
+				}
+				m[p] = a
+			}
+		}
+		return m
+	}
+	var inClosure func(fn *ssa.Function, depth int, subst map[ssa.Value]ssa.Value) bool
+	inClosure = func(fn *ssa.Function, depth int, subst map[ssa.Value]ssa.Value) bool {
 		if fn == nil || depth > 4 {
 			return false
 		}
@@ -126,13 +143,19 @@ func removalPred(table string, key ssa.Value) (func(ssa.Instruction) bool, func(
 					// inside a module helper (o.cleanUp → pullOutObservation) the key is the helper's own view of the same token
 					found = true
 				}
+				// the helper removes the key it was given: Delete(param) with param bound to the registration key at the call
+				if n := core.CalleeName(c); key != nil && (removingMethods[n] || n == "pkg/sync.Map.ReplaceWithFunc") && tableOf(c) == table && core.NArgs(c) >= 2 {
+					if a, ok := subst[core.Resolve(core.Arg(c, 1))]; ok && exprEq(a, key, 0) {
+						found = true
+					}
+				}
 				// one level through module helpers such as o.cleanUp() → pullOutObservation → LoadAndDelete
 				if sf := core.StaticFn(c); sf != nil && sf.Parent() == nil && depth < 4 && strings.Contains(sf.String(), core.Module) {
 					d2 := depth + 1
 					if d2 < 2 {
 						d2 = 2
 					}
-					if inClosure(sf, d2) {
+					if inClosure(sf, d2, argsOf(c, sf, subst)) {
 						found = true
 					}
 				}
@@ -149,7 +172,7 @@ func removalPred(table string, key ssa.Value) (func(ssa.Instruction) bool, func(
 			return true
 		}
 		if sf := core.StaticFn(c); sf != nil && (sf.Parent() != nil || strings.Contains(sf.String(), core.Module)) {
-			return inClosure(sf, 1)
+			return inClosure(sf, 1, argsOf(c, sf, nil))
 		}
 		return false
 	}
@@ -158,7 +181,7 @@ func removalPred(table string, key ssa.Value) (func(ssa.Instruction) bool, func(
 			return true
 		}
 		if sf := core.StaticFn(d); sf != nil {
-			return inClosure(sf, 1)
+			return inClosure(sf, 1, argsOf(d, sf, nil))
 		}
 		return false
 	}
